@@ -311,6 +311,143 @@ pub fn fdselect_driver(data: &[u8], ctx: &[Vec<u8>], _a: [u32; 3], w: &mut Walke
     }
 }
 
+/// custom charset range encodings: (first SID, nLeft) pairs as format 1 (u8 nLeft) or format 2 (u16 nLeft)
+pub fn charset_ranges(format: u8, ranges: &[(u16, u16)]) -> Vec<u8> {
+    let mut v = vec![format];
+    for (first, n_left) in ranges {
+        be16(&mut v, *first);
+        if format == 1 {
+            v.push(*n_left as u8);
+        } else {
+            be16(&mut v, *n_left);
+        }
+    }
+    v
+}
+
+/// spec semantics of a range charset, in u64 (harness-side reference): gid -> SID
+fn charset_model(ranges: &[(u16, u16)], num_glyphs: u32, gid: u32) -> Option<u16> {
+    if gid >= num_glyphs {
+        return None;
+    }
+    if gid == 0 {
+        return Some(0);
+    }
+    let g = gid as u64 - 1;
+    let mut end = 0u64;
+    for (first, n_left) in ranges {
+        let next = end + *n_left as u64 + 1;
+        if g < next {
+            return u16::try_from(*first as u64 + (g - end)).ok();
+        }
+        end = next;
+    }
+    None
+}
+
+/// data = 4 pad bytes + a custom charset (format 0 / 1 / 2), a[0] = numGlyphs; ctx[0] (optional) = the same ranges
+/// in the other range format. Charset::string_id for boundary glyph ids, Charset::iter under its bound; oracles:
+/// string_id equals the range semantics computed from the bytes, iter() pairs equal string_id, and the format-1
+/// and format-2 encodings of the same ranges agree.
+pub fn charset_driver(data: &[u8], ctx: &[Vec<u8>], a: [u32; 3], w: &mut Walker) {
+    use read_fonts::tables::postscript::Charset;
+    use read_fonts::types::GlyphId;
+    let n = a[0];
+    let cs = match Charset::new(FontData::new(data), 4, n) {
+        Ok(c) => c,
+        Err(e) => return rerr(w, &e),
+    };
+    // harness-side parse of the ranges (formats 1 and 2 only)
+    let ranges: Option<Vec<(u16, u16)>> = match data.get(4) {
+        Some(1) => Some(data[5..].chunks_exact(3).map(|c| (u16::from_be_bytes([c[0], c[1]]), c[2] as u16)).collect()),
+        Some(2) => Some(data[5..].chunks_exact(4).map(|c| (u16::from_be_bytes([c[0], c[1]]), u16::from_be_bytes([c[2], c[3]]))).collect()),
+        _ => None,
+    };
+    let mut gids: Vec<u32> = vec![0, 1, 2, 3, 4, 5, 254, 255, 256, 257, 258, 259, 260, 299, 300, 0xFFFD, 0xFFFE, 0xFFFF, 0x10000, n.wrapping_sub(1), n, u32::MAX];
+    if let Some(r) = &ranges {
+        let mut end = 0u32;
+        for (_, nl) in r.iter().take(4) {
+            end = end.saturating_add(*nl as u32 + 1);
+            gids.extend([end.saturating_sub(1), end, end.saturating_add(1), end.saturating_add(2)]);
+        }
+    }
+    let other = ctx.first().and_then(|c| Charset::new(FontData::new(c), 4, n).ok());
+    for g in gids {
+        let got = cs.string_id(GlyphId::new(g));
+        w.calls += 1;
+        match &got {
+            Ok(s) => w.u(s.to_u16() as u64),
+            Err(e) => rerr(w, e),
+        }
+        if let Some(r) = &ranges {
+            let want = charset_model(r, n, g);
+            if got.as_ref().ok().map(|s| s.to_u16()) != want {
+                crate::drivers::report_disagreement(
+                    "Charset::string_id vs the range semantics",
+                    format!("glyph {g}: {:?} but the ranges {r:?} with {n} glyphs give {want:?}", got.as_ref().ok().map(|s| s.to_u16())),
+                );
+            }
+        }
+        if let Some(o) = &other {
+            let b = o.string_id(GlyphId::new(g));
+            if got.as_ref().ok().map(|s| s.to_u16()) != b.as_ref().ok().map(|s| s.to_u16()) {
+                crate::drivers::report_disagreement("Charset format 1 vs format 2 string_id", format!("glyph {g}: {:?} vs {:?}", got.is_ok(), b.is_ok()));
+            }
+        }
+    }
+    let mut k = 0u64;
+    for (g, s) in cs.iter() {
+        k += 1;
+        if k > n as u64 + 1 {
+            report_overrun("Charset::iter yields more entries than num_glyphs", k);
+            break;
+        }
+        if k <= 400 {
+            w.h.u64(((g.to_u32() as u64) << 16) | s.to_u16() as u64);
+            if cs.string_id(g).ok().map(|x| x.to_u16()) != Some(s.to_u16()) {
+                crate::drivers::report_disagreement("Charset::iter vs string_id", format!("glyph {}: iter gives {} but string_id {:?}", g.to_u32(), s.to_u16(), cs.string_id(g).ok().map(|x| x.to_u16())));
+            }
+        }
+    }
+    w.calls += k;
+    w.nodes += k / 64;
+    w.u(k);
+}
+
+/// minimal CFF table with `n` glyphs (endchar charstrings) and the given custom charset
+pub fn cff_with_charset(n: u16, charset: &[u8]) -> Vec<u8> {
+    let mut v = vec![1u8, 0, 4, 1];
+    v.extend([0, 1, 1, 1, 2, b'A']); // Name INDEX
+    let cs_off = 31u32;
+    let cs_len = 2 + 1 + 2 * (n as u32 + 1) + n as u32;
+    let charset_off = cs_off + cs_len;
+    let mut top = vec![29u8];
+    top.extend(charset_off.to_be_bytes());
+    top.push(15);
+    top.push(29);
+    top.extend(cs_off.to_be_bytes());
+    top.push(17);
+    v.extend([0, 1, 1, 1, 13]); // Top DICT INDEX: one 12-byte dict
+    v.extend(top);
+    v.extend([0, 0]); // String INDEX
+    v.extend([0, 0]); // Global Subr INDEX
+    debug_assert_eq!(v.len(), 31);
+    be16(&mut v, n);
+    v.push(2);
+    for i in 0..=n {
+        be16(&mut v, i + 1);
+    }
+    v.extend(std::iter::repeat(14u8).take(n as usize)); // endchar
+    v.extend_from_slice(charset);
+    v
+}
+
+/// a seed that is executed exactly once (no extension atoms)
+fn once(mut s: Seed) -> Seed {
+    s.pos_limit = 0;
+    s
+}
+
 fn seed(name: String, ty: Option<usize>, driver: &str, dargs: [u32; 3], data: Vec<u8>, ctx: Vec<Vec<u8>>) -> Seed {
     let n = data.len();
     Seed {
@@ -537,6 +674,48 @@ pub fn capsweep_seeds(out: &mut Vec<Seed>) {
                     p.extend(solid);
                 }
                 out.push(seed(format!("synth:cap/colr-translate-chain-depth={depth},cyclic={cyclic}"), colr_ty, "colr", [0; 3], colr_with(p), vec![]));
+            }
+        }
+    }
+    // CFF custom charsets: formats 1 and 2 over first SID x nLeft x numGlyphs, format 0 arrays, and whole CFF tables
+    {
+        let firsts = [0u16, 1, 390, 391, 0xFFFE, 0xFFFF];
+        let mut n = 0;
+        for first in firsts {
+            for n_left in [0u16, 1, 254, 255, 0xFFFE, 0xFFFF] {
+                for glyphs in [1u32, 2, 300, 65535] {
+                    let ranges = [(first, n_left), (7, 3)];
+                    let f2 = [vec![0u8; 4], charset_ranges(2, &ranges)].concat();
+                    if n_left <= 255 {
+                        let f1 = [vec![0u8; 4], charset_ranges(1, &ranges)].concat();
+                        out.push(once(seed(format!("synth:cap/charset1-first={first},nleft={n_left},glyphs={glyphs}"), None, "charset", [glyphs, 0, 0], f1.clone(), vec![f2.clone()])));
+                        out.push(once(seed(format!("synth:cap/charset2-first={first},nleft={n_left},glyphs={glyphs}"), None, "charset", [glyphs, 0, 0], f2, vec![f1])));
+                    } else {
+                        out.push(once(seed(format!("synth:cap/charset2-first={first},nleft={n_left},glyphs={glyphs}"), None, "charset", [glyphs, 0, 0], f2, vec![])));
+                    }
+                    n += 1;
+                }
+            }
+        }
+        let _ = n;
+        for glyphs in [1u32, 2, 5, 300] {
+            let mut f0 = vec![0u8; 5];
+            for i in 0..4u16 {
+                be16(&mut f0, 390 + i);
+            }
+            out.push(once(seed(format!("synth:cap/charset0-4sids,glyphs={glyphs}"), None, "charset", [glyphs, 0, 0], f0, vec![])));
+        }
+        for format in [1u8, 2] {
+            for first in [1u16, 391] {
+                for n_left in [0u16, 255, 0xFFFF] {
+                    if format == 1 && n_left > 255 {
+                        continue;
+                    }
+                    for glyphs in [2u16, 300] {
+                        let t = cff_with_charset(glyphs, &charset_ranges(format, &[(first, n_left), (7, 3)]));
+                        out.push(seed(format!("synth:cap/cff-charset{format}-first={first},nleft={n_left},glyphs={glyphs}"), None, "cff", [0; 3], t, vec![]));
+                    }
+                }
             }
         }
     }
